@@ -83,6 +83,10 @@ func (spec Spec) Validate() error {
 	if spec == (Spec{}) {
 		return fmt.Errorf("none of the validations are defined")
 	}
+	if spec.Signature != nil && len(spec.Signature.AccessKeys) == 0 {
+		// a signature cannot be verified without the secret of its access key
+		return fmt.Errorf("signature: accessKeys is required")
+	}
 	return nil
 }
 
